@@ -12,6 +12,8 @@ mod snode;
 mod ssim;
 mod nodes;
 mod admission;
+mod hsim;
+mod hdrive;
 
 fn main() {
     clock::self_test();
@@ -34,6 +36,10 @@ fn main() {
         "C17" => ssim::run_c17(),
         "C11" => nodes::run(&args),
         "C12" => admission::run(),
+        "C04" => hdrive::run("C04"),
+        "C13" => hdrive::run("C13"),
+        "C03" => hdrive::run("C03"),
+        "C19" => hdrive::run("C19"),
         "c17debug" => ssim::debug_c17(),
         "C09" => query::run("C09"),
         "C10" => query::run("C10"),
@@ -53,6 +59,10 @@ fn replay(args: &[String]) {
     println!("recorded detail: {}", v["detail"]);
     match v["replay"]["engine"].as_str().unwrap_or("") {
         "codec" => codec::replay(v["replay"]["check"].as_str().unwrap_or(""), &v["replay"]),
+        "hsim" => match v["replay"]["driver"].as_str().unwrap_or("") {
+            "hdrive" => hdrive::replay(&v["replay"], prop),
+            d => { eprintln!("no replayer for hsim driver {d}"); std::process::exit(2); }
+        },
         e => { eprintln!("no replayer for engine {e}"); std::process::exit(2); }
     }
 }
